@@ -26,6 +26,26 @@ RAW_CONTROLS = [
      'pub fn touch() -> borsh::schema::BorshSchemaContainer { borsh::schema::BorshSchemaContainer::for_type::<G<u8, u16>>() }'),
     ('raw_f9_assoc', 'where-clause over an associated type and a second parameter, BorshSchema',
      'pub trait Tr { type A; }\n#[derive(borsh::BorshSchema)]\npub enum H<T: Tr, U> where T::A: core::fmt::Debug, U: Clone { X(T::A, u8), Y(U) }'),
+    ('raw_lifetime_enum', 'enum with a lifetime parameter (used by every variant), all three derives',
+     '#[derive(borsh::BorshSerialize, borsh::BorshDeserialize, borsh::BorshSchema)]\n'
+     "pub enum L<'a> { A(std::borrow::Cow<'a, str>), B { x: std::borrow::Cow<'a, [u8]>, y: u8 } }\n"
+     "pub fn touch() -> borsh::schema::BorshSchemaContainer { borsh::schema::BorshSchemaContainer::for_type::<L<'static>>() }"),
+    ('raw_const_enum', 'enum with a const generic parameter, all three derives',
+     '#[derive(borsh::BorshSerialize, borsh::BorshDeserialize, borsh::BorshSchema)]\npub enum C<const N: usize> { A([u8; N]), B }\n'
+     'pub fn touch() -> borsh::schema::BorshSchemaContainer { borsh::schema::BorshSchemaContainer::for_type::<C<3>>() }'),
+    ('raw_lifetime_const_generic_enum', 'enum with lifetime, type and const parameters, all three derives',
+     '#[derive(borsh::BorshSerialize, borsh::BorshDeserialize, borsh::BorshSchema)]\n'
+     "pub enum M<'a, T: Clone, const N: usize> { A { xs: std::borrow::Cow<'a, [T]> }, B([T; N], std::borrow::Cow<'a, str>) }\n"
+     "pub fn touch() -> borsh::schema::BorshSchemaContainer { borsh::schema::BorshSchemaContainer::for_type::<M<'static, u8, 2>>() }"),
+    ('raw_ref_slice_struct', 'struct over a borrowed slice of a type parameter: BorshSerialize; skipped: all three derives',
+     "#[derive(borsh::BorshSerialize)]\npub struct V<'a, T> { pub items: &'a [T] }\n"
+     '#[derive(borsh::BorshSerialize, borsh::BorshDeserialize, borsh::BorshSchema)]\n'
+     "pub struct K<'a, T, U: Clone> { #[borsh(skip)] pub items: &'a [T], pub b: Box<[U]>, #[borsh(skip)] pub p: Option<*const T> }\n"
+     'pub fn touch(v: &V<u8>) -> Vec<u8> { borsh::to_vec(v).unwrap() }'),
+    ('raw_ident_generic_enum', 'raw identifiers as variant / field names of a generic enum, all three derives',
+     '#[derive(borsh::BorshSerialize, borsh::BorshDeserialize, borsh::BorshSchema)]\n'
+     'pub enum R<T> { r#type, r#match { r#fn: T, #[borsh(skip)] r#loop: u8 }, C(u8) }\n'
+     'pub fn touch() -> borsh::schema::BorshSchemaContainer { borsh::schema::BorshSchemaContainer::for_type::<R<u8>>() }'),
     ('raw_variant_other_attrs', 'non-borsh attributes on variants at every position stay legal',
      '#[derive(borsh::BorshSerialize, borsh::BorshDeserialize, borsh::BorshSchema)]\npub enum V { #[allow(dead_code)] A, #[doc = "b"] B(u8), #[cfg(all())] C { x: u16 }, /// doc\n D }'),
 ]
